@@ -130,7 +130,77 @@ def tree(node):
         return ast.dump(node)
 
 
-def validity_checks(node):
+PRE_BODIES = ["VERSION = (1, 2)", "import os", "x = 1\ny = 2", "def g():\n    return 1", "class K:\n    a = 1",
+              "if True:\n    z = 3", '"""module doc"""', "# only a comment", "", "s = 'text'\n\n\nt = [\n    1,\n]"]
+PRE_ENDINGS = ["", "", "\n", " ", "\t", "\n    ", "  # trailing comment ", "\n\n", "\n# last line is a comment", "\r\n"]
+
+
+def gen_filespec(rng):
+    """how emit.file is exercised besides a fresh file: mode x what the file holds before the call"""
+    r = rng.random()
+    if r < 0.25:
+        pre = None                                   # no file yet
+    elif r < 0.5:
+        pre = {"emitted": True, "skip_black": rng.random() < 0.5}    # the file emit.file itself wrote for this node just before
+    else:
+        pre = {"text": rng.choice(PRE_BODIES) + rng.choice(PRE_ENDINGS)}
+    return {"mode": rng.choice(["a", "a", "a", "wt"]), "pre": pre}
+
+
+def file_state_checks(node, src, spec):
+    """emit.file(node, filename, mode) onto a file in a given pre-state, with and without formatting: the result parses, the
+    statements the file held before are unchanged (mode 'a') or gone (mode 'wt'), and the last statement is the emitted tree"""
+    m = impl()
+    out = []
+    want = tree(ast.parse(src).body[0])
+    for skip_black in (True, False):
+        clause = "file" if skip_black else "file-black"
+        d = tempfile.mkdtemp(prefix="doctrans-verif-c06.")
+        fn = os.path.join(d, "out.py")
+        try:
+            pre = spec["pre"]
+            if pre is not None and pre.get("emitted"):
+                m.emit.file(copy.deepcopy(node), fn, mode="a", skip_black=pre["skip_black"])
+            elif pre is not None:
+                with open(fn, "w", newline="") as f:
+                    f.write(pre["text"])
+            before = open(fn).read() if pre is not None else ""
+            try:
+                before_trees = [tree(s) for s in ast.parse(before).body]
+            except SyntaxError:
+                before_trees = None        # (not a pre-state this stratum speaks about)
+            try:
+                m.emit.file(copy.deepcopy(node), fn, mode=spec["mode"], skip_black=skip_black)
+            except Exception as e:  # noqa
+                out.append((clause, False, "emit.file(mode=%r) raised %s" % (spec["mode"], type(e).__name__)))
+                continue
+            if before_trees is None:
+                continue
+            text = open(fn).read()
+            left = [f for f in os.listdir(d) if f != "out.py"]
+            if left:
+                out.append(("file-append", False, "emit.file left %r next to the file" % (left,)))
+            try:
+                body = ast.parse(text).body
+            except SyntaxError as e:
+                out.append(("file-append", False, "after emit.file(mode=%r) onto a file holding %r the file does not parse (%s, line %r)"
+                            % (spec["mode"], before[-60:], e.msg, (e.text or "")[:80])))
+                continue
+            kept = before_trees if spec["mode"].startswith("a") else []
+            ok = [tree(s) for s in body[:-1]] == kept and len(body) >= 1
+            out.append(("file-append", ok, "" if ok else "emit.file(mode=%r): the %d statement(s) the file held before came back as %d"
+                                                       " statement(s) / changed" % (spec["mode"], len(before_trees), len(body) - 1)))
+            if body:
+                ok = tree(body[-1]) == want
+                out.append((clause, ok, "" if ok else "file text parses to a different tree (mode=%r, pre-state %r)" % (spec["mode"], spec["pre"])))
+        finally:
+            for f in os.listdir(d):
+                os.remove(os.path.join(d, f))
+            os.rmdir(d)
+    return out
+
+
+def validity_checks(node, filespec=None):
     """-> list of (clause, ok, what)"""
     out = []
     try:
@@ -172,6 +242,8 @@ def validity_checks(node):
             for f in os.listdir(d):
                 os.remove(os.path.join(d, f))
             os.rmdir(d)
+    if filespec is not None:
+        out += file_state_checks(node, src, filespec)
     return out, src, ns
 
 
@@ -267,6 +339,12 @@ def collapse(s):
     return " ".join((s or "").split())
 
 
+def reflow(s, width=100):
+    """what wrapping may do to prose: blanks become line breaks, lines as full as the width allows; words (however long,
+    hyphenated or not) stay whole"""
+    return textwrap.fill(s, width, break_long_words=False, break_on_hyphens=False)
+
+
 def argparse_checks(ir, o, ns, name):
     out = []
     f = ns[name]
@@ -276,7 +354,7 @@ def argparse_checks(ir, o, ns, name):
     except Exception as e:  # noqa
         return [("run", False, "running against an ArgumentParser raised %s" % type(e).__name__)]
     out.append(("run", True, ""))
-    want_desc = textwrap.fill(ir["doc"], 100) if o["wrap_description"] else ir["doc"]
+    want_desc = reflow(ir["doc"]) if o["wrap_description"] else ir["doc"]
     ok = parser.description == want_desc
     out.append(("description", ok, "" if ok else "description %r, IR says %r" % (parser.description, want_desc)))
     acts = [a for a in parser._actions]
@@ -295,9 +373,11 @@ def argparse_checks(ir, o, ns, name):
             out.append(("option-default", ok, "" if ok else "option --%s default %r, IR says %r" % (n, a.default, ed[1])))
         d = p.get("doc")
         if d and not o["emit_default_doc"] and "efault" not in d:
-            want = textwrap.fill(d, 100) if o["word_wrap"] else d
+            want = reflow(d) if o["word_wrap"] else d
             ok = a.help == want
             out.append(("option-help", ok, "" if ok else "option --%s help %r, IR says %r" % (n, a.help, want)))
+            ok = isinstance(a.help, str) and a.help.split() == d.split()
+            out.append(("help-words", ok, "" if ok else "option --%s help %r does not consist of the words of the IR's prose %r" % (n, a.help, d)))
         t = p.get("typ") or ""
         if t.startswith("Literal["):
             try:
@@ -336,7 +416,15 @@ def gen_cases(rng, n):
         else:
             o = {"emit_default_doc": rng.random() < 0.5, "word_wrap": rng.random() < 0.5,
                  "wrap_description": rng.random() < 0.5, "function_name": "set_cli_args", "function_type": "static"}
-        cases.append({"kind": kind, "ir": spec, "opts": o, "tags": tags})
+        # strata: a token longer than the wrap width in a summary line / in prose; emit.file onto a file in some pre-state
+        if rng.random() < 0.3:
+            fam_emitast._maybe_long_token(rng, spec, tags, p_doc=0.5, p_param=0.4)
+        case = {"kind": kind, "ir": spec, "opts": o, "tags": tags}
+        if rng.random() < 0.5:
+            case["file"] = gen_filespec(rng)
+            tags.append("file:%s:%s" % (case["file"]["mode"], "none" if case["file"]["pre"] is None else
+                                        "emitted" if case["file"]["pre"].get("emitted") else "text"))
+        cases.append(case)
     return cases
 
 
@@ -348,7 +436,7 @@ def evaluate(case):
     node = rec.node
     if node is None:
         return [("emit", False, "the emitter raised %s" % exc_kind(rec.exc))], None
-    checks, src, ns = validity_checks(node)
+    checks, src, ns = validity_checks(node, case.get("file"))
     if ns is not None:
         try:
             if kind == "function":
@@ -408,12 +496,13 @@ def oracle(rng, tier):
         hist["fails:%s:%s:%s" % (c["kind"], clause, cls or "in-guard")] += 1
         kept[(c["kind"], clause, cls)] += 1
         if cls is None or kept[(c["kind"], clause, cls)] <= 10:
-            failures.append({"case": {k: c[k] for k in ("kind", "ir", "opts")}, "what": "%s: %s" % (clause, what), "class": cls})
+            failures.append({"case": {k: c[k] for k in ("kind", "ir", "opts", "file") if k in c}, "what": "%s: %s" % (clause, what), "class": cls})
     return {
         "evaluations": evaluations,
         "distinct_nontrivial": len(seen),
         "rule": "generated IRs x {function, class, argparse} x option combinations; every clause (validity, tree identity, "
-                "file emission, behaviour) counted; non-trivial = distinct (IR, kind) with >= 2 parameters or a return entry "
+                "file emission onto a fresh file and, for half the cases, in mode a / wt onto a file in a drawn pre-state, behaviour) "
+                "counted; a third of the IRs carry a token longer than the wrap width in the summary or in prose; non-trivial = distinct (IR, kind) with >= 2 parameters or a return entry "
                 "on which every clause holds",
         "failures": failures,
         "histogram": dict(hist),
